@@ -58,8 +58,20 @@ func NewAvahiProvider(ifaceIndexes []int32) *AvahiProvider {
 var _ api.MdnsProviderInterface = (*AvahiProvider)(nil)
 
 func (a *AvahiProvider) Start(autoReconnect bool, cb api.MdnsResolveCB) bool {
+	return a.start(autoReconnect, cb, false)
+}
+
+// start the provider
+//
+// isReconnect is set when invoked by the automatic reconnect to the avahi daemon,
+// which must not undo a shutdown that happened in the meantime
+func (a *AvahiProvider) start(autoReconnect bool, cb api.MdnsResolveCB, isReconnect bool) bool {
 	a.mux.Lock()
 	defer a.mux.Unlock()
+
+	if isReconnect && a.manualShutdown {
+		return false
+	}
 
 	a.autoReconnect = autoReconnect
 	a.resolveCB = cb
@@ -225,18 +237,14 @@ func (a *AvahiProvider) avahiCallback(event avahi.Event) {
 	// the server was shutdown, set it to nil so we don't try to call free functions
 	// on shutting down a currently running resolve
 	cb := a.resolveCB
-	var serviceData *mdnsServiceData
-	if a.mdnsServiceData != nil {
-		serviceData = a.mdnsServiceData
-	}
 	a.mux.Unlock()
 
 	// try to reconnect until successull
-	go a.attemptReconnect(cb, serviceData)
+	go a.attemptReconnect(cb)
 }
 
 // attempt to reconnect to the avahi daemon endlessly
-func (a *AvahiProvider) attemptReconnect(cb api.MdnsResolveCB, serviceData *mdnsServiceData) {
+func (a *AvahiProvider) attemptReconnect(cb api.MdnsResolveCB) {
 	for {
 		a.mux.Lock()
 		isManualShutdown := a.manualShutdown
@@ -247,11 +255,17 @@ func (a *AvahiProvider) attemptReconnect(cb api.MdnsResolveCB, serviceData *mdns
 
 		<-time.After(time.Second)
 
-		if !a.Start(true, cb) {
+		if !a.start(true, cb, true) {
 			continue
 		}
 
 		logging.Log().Debug("mdns: avahi - reconnected")
+
+		// announce what is to be announced now, not what was announced
+		// when the connection to the daemon got lost
+		a.mux.Lock()
+		serviceData := a.mdnsServiceData
+		a.mux.Unlock()
 
 		if serviceData != nil {
 			if err := a.Announce(serviceData.Name, serviceData.Port, serviceData.Txt); err != nil {
